@@ -3,29 +3,29 @@
    check_c13) compares with the implementation on every injected error; sys/Fix.v is the abstract model of Validate's
    struct-usage loop (gen.go: "for changed { for name := range usage { for used := range usage[name] { ... } } }"), with the
    order in which Go ranges over its maps left ARBITRARY (an oracle, possibly different in every pass).  Proved about it: *)
-Require Import Bebop.front.Tok Bebop.front.Parse Bebop.front.Valid Bebop.front.ValidFacts.
+Require Import Bebop.front.Tok Bebop.front.Parse Bebop.front.Valid Bebop.front.ValidFacts Bebop.front.ValidRec.
 Require Import Bebop.sys.Fix.
-From Coq Require Import List.
+From Coq Require Import Bool.
+From Coq Require Import List NArith.
 Import ListNotations.
 
 (* whatever the iteration orders, (1) when the loop stops the usage sets are EXACTLY the transitive closure of the direct
    struct-containment relation, so "a struct reaches itself" is decided exactly: every necessarily infinite struct is
    rejected and nothing else is; (2) the loop stops within |keys| * |names| productive passes *)
 Definition C13_partial_statement : Prop :=
-  forall (keys V : list name) (u0 : usage) (outer : nat -> list name) (ord : nat -> name -> list name),
+  forall (name : Type) (eqb : name -> name -> bool) (eqb_spec : forall a b, reflect (a = b) (eqb a b))
+         (keys V : list name) (u0 : usage name) (outer : nat -> list name) (ord : nat -> name -> list name),
     (forall f, incl (outer f) keys /\ incl keys (outer f)) ->
     (forall f a, incl (ord f a) keys /\ incl keys (ord f a)) ->
-    (forall fuel u u', Inv keys V u0 u -> iterate fuel u outer ord = Some u' ->
-       forall a x, In a keys -> In x (u' a) <-> clo keys u0 a x) /\
-    (forall fuel u, Inv keys V u0 u -> length keys * length V < fuel + total keys u -> iterate fuel u outer ord <> None).
-
+    (forall fuel u u', Inv name keys V u0 u -> iterate name eqb fuel u outer ord = Some u' ->
+       forall a x, In a keys -> In x (u' a) <-> clo name keys u0 a x) /\
+    (forall fuel u, Inv name keys V u0 u -> length keys * length V < fuel + total name keys u -> iterate name eqb fuel u outer ord <> None).
 Theorem C13_partial : C13_partial_statement.
 Proof.
-  intros keys V u0 outer ord Ho Hd. split.
-  - exact (iterate_exact keys V u0 outer ord Ho Hd).
-  - exact (iterate_terminates keys V u0 outer ord Ho Hd).
+  intros name eqb eqb_spec keys V u0 outer ord Ho Hd. split.
+  - exact (iterate_exact name eqb eqb_spec keys V u0 outer ord Ho Hd).
+  - exact (iterate_terminates name eqb eqb_spec keys V u0 outer ord Ho Hd).
 Qed.
-
 Print Assumptions C13_partial.
 
 (* The executable validator model (front/Valid.v - the one the correspondence check compares with File.Validate on every
@@ -39,3 +39,33 @@ Definition C13_sound_statement : Prop := forall f, validate f = true -> sem_ok f
 Theorem C13_sound : C13_sound_statement.
 Proof. exact validate_sound. Qed.
 Print Assumptions C13_sound.
+
+(* The recursion clause on the EXECUTABLE validator model (front/ValidRec.v): Valid.v's loop - byte-string names, association
+   lists, one particular iteration order, a fuel bound computed from the schema - refines the abstract loop above, the bound
+   is enough for it to stop by itself, and therefore: the validator model accepts a File EXACTLY when every other clause
+   holds (validate_norec, to which C13_sound applies) and no struct reaches itself through the types its fields mention,
+   transitively through structs (clo over `direct`, which direct_spec / dedup_spec identify with the field types of the
+   struct of that name).  Every necessarily-infinite struct is rejected; recursion through messages or unions (whose names
+   are not struct keys) is accepted; the analysis terminates. *)
+Definition C13_recursion_statement : Prop :=
+  (forall f, validate f = true <->
+     validate_norec f = true /\ forall a, In a (snames (structs f)) -> ~ clo bytes (snames (structs f)) (direct (structs f)) a a) /\
+  (forall sts s, NoDup (snames sts) -> In s sts ->
+     forall x, In x (direct sts (s_name s)) <-> exists fd, In fd (s_fields s) /\ In x (used_types (f_type fd))).
+Theorem C13_recursion : C13_recursion_statement.
+Proof.
+  split; [exact validate_rec|]. intros sts s Hn Hs x. rewrite (direct_spec sts s Hn Hs). unfold struct_used.
+  rewrite (proj2 (dedup_spec _) x), in_flat_map. reflexivity.
+Qed.
+(* not vacuous: a struct cycle behind a non-cyclic struct is rejected, the same shape through a message is accepted *)
+Example C13_recursion_witness :
+  let fld t := {| f_type := FSimple t; f_name := [120%N]; f_comment := []; f_tags := []; f_depmsg := []; f_dep := false |} in
+  let st n t := {| s_name := [n]; s_comment := []; s_fields := [fld [t]]; s_opcode := 0; s_readonly := false |} in
+  let f0 := {| structs := []; messages := []; enums := []; unions := []; consts := []; imports := []; gopackage := [] |} in
+  let bad := {| structs := [st 65%N 66%N; st 66%N 67%N; st 67%N 66%N]; messages := messages f0; enums := []; unions := []; consts := []; imports := []; gopackage := [] |} in
+  let good := {| structs := [st 65%N 66%N; st 66%N 77%N];
+                 messages := [{| m_name := [77%N]; m_comment := []; m_fields := [(1%N, fld [66%N])]; m_opcode := 0 |}];
+                 enums := []; unions := []; consts := []; imports := []; gopackage := [] |} in
+  validate bad = false /\ validate_norec bad = true /\ validate good = true.
+Proof. vm_compute. repeat split. Qed.
+Print Assumptions C13_recursion.
